@@ -18,6 +18,9 @@ def main() -> None:
     props = [json.loads(l) for l in open(os.path.join(VERIF, "properties.jsonl"))]
     ids = [p["id"] for p in props]
     built = sorted(os.path.basename(p)[:-3] for p in glob.glob(os.path.join(VERIF, "vf", "checks", "C*.py")))
+    # only checks that were run silent on the unchanged tree and mutation-tested are registered
+    reg = {l.split()[0] for l in open(os.path.join(VERIF, "vf", "registered.txt")) if l.strip() and not l.startswith("#")}
+    built = [b for b in built if b in reg]
     checks = []
     served = []
     for cid in built:
